@@ -30,8 +30,12 @@ func (rd *ReorgDetector) Subscribe(id string) (*Subscription, error) {
 	return sub, nil
 }
 
-// notifySubscriber notifies the subscriber with the block of the reorg
-func (rd *ReorgDetector) notifySubscriber(id string, startingBlock header) {
+// notifySubscriber notifies the subscriber with the block of the reorg, waits until the subscriber has processed
+// the reorg and then calls removeReorgedBlocks. The subscriber's tracked blocks stay locked from the moment it has taken
+// the notification until removeReorgedBlocks returns: the blocks it tracks once it is released (AddBlockToTrack waits
+// for the lock) are added after the reorged ones were removed, and are not removed along with them.
+func (rd *ReorgDetector) notifySubscriber(id string, startingBlock header, hdrs *headersList,
+	removeReorgedBlocks func() error) error {
 	// Notify subscriber about this particular reorg
 	rd.subscriptionsLock.RLock()
 	sub, ok := rd.subscriptions[id]
@@ -40,8 +44,13 @@ func (rd *ReorgDetector) notifySubscriber(id string, startingBlock header) {
 	if ok {
 		rd.log.Infof("Reorg detected for subscriber %s at block %d", id, startingBlock.Num)
 		sub.ReorgedBlock <- startingBlock.Num
+		// the subscriber is handling the reorg: it does not track blocks until ReorgProcessed is taken from it
+		hdrs.Lock()
+		defer hdrs.Unlock()
 		<-sub.ReorgProcessed
 	}
+
+	return removeReorgedBlocks()
 }
 
 // getSubscriberIDs returns a list of subscriber IDs
